@@ -1,6 +1,10 @@
 import EupsModel.Lemmas.Expand
 import EupsModel.Lemmas.ExpandDeps
 import EupsModel.Lemmas.ExpandSetup
+import EupsModel.Lemmas.ExpandTable
+import EupsModel.Lemmas.ExpandCovered
+import EupsModel.Lemmas.ExpandReader
+import EupsModel.Lemmas.ExpandUnsetup
 /-! C17 — an expanded table file reproduces the build-time versions exactly.  Property theorems only
 (the model is `Model/Expand.lean`, helper lemmas are in `Lemmas/Expand.lean`).
 
@@ -119,6 +123,24 @@ theorem C17_never_foreign_over_Deps (db : Deps.Db) (fuel : Nat) (setup : List (S
     (ind : Int) (opt : Bool) (n v : Str) (hx : Item.pin ind opt n v ∈ items) : Recorded A n v :=
   C17_never_foreign A o lines items (depsSound_of_depsModel db fuel setup raises A hsv hdeps) h ind opt n v hx
 
+/-- **A declared version is reported under its own name, whatever tags exist** (`Eups.findSetupVersion`, the source of
+the answers `sv` / `spv`): when the version recorded in `SETUP_<P>` is declared, the version reported is the recorded one —
+also when its name is the name of a recognised tag (`current`, `beta`, a user tag) that is assigned to another version. -/
+theorem C17_setupVersion_recorded (recognised : List Str) (declared : Str → Bool) (tagged : Str → Option Str) (recorded : Str)
+    (h : declared recorded = true) : setupVersion recognised declared tagged recorded = recorded := by
+  unfold setupVersion
+  split
+  · rfl
+  · simp [h]
+
+/-- …and the reading that takes every recognised tag name for the tag is wrong on exactly this class: version `current`
+declared and set up, tag `current` assigned to version `1`. -/
+theorem C17_setupVersion_tag_named_witness :
+    setupVersion [Str.ofString "current"] (fun _ => true) (fun _ => some (Str.ofString "1")) (Str.ofString "current")
+      = Str.ofString "current" ∧
+    setupVersion [Str.ofString "current"] (fun _ => false) (fun _ => some (Str.ofString "1")) (Str.ofString "current")
+      = Str.ofString "1" := by decide
+
 /-! ## keeps the original constraints for inexact mode -/
 
 /-- `C17_keeps_constraints`, line level (`subSetup`).  `p` is what the expander read on a setup line (product,
@@ -180,6 +202,102 @@ theorem C17_keeps_constraints_line (A : Answers) (o : Opts) (optional : Bool) (p
             have ht : truthy (some (sGe ++ sv)) = true := by rw [hge]; rfl
             simp [he, hl, hloc, ht]
         · simp [hts] at h
+
+/-- **`parseArgs` against an independent reader of a setup line** (`Lemmas/ExpandReader.lean`).  A setup line as documented
+is, between its parentheses, a sequence of tokens with any white space before, between and after them (`layout`: each token
+with the gap that follows it): flags anywhere (`Tok.flag1`: `-j`, `-k`, …, `--external`; `Tok.flag2`: `-t tag`, `-T type`,
+`-r dir`, … with their argument) and, as words in order, the product name and one of the five documented ways of naming a
+version (`Form`): nothing / `v` / `v [e1 … ek]` / `[e1 … ek]` / a relational expression without brackets `>= 1 …`.  The
+reader `Form.parsed` says what the line means; `parseArgs` — `str.split`, the flag loop with its two bracket patterns, the
+search for `[` … `]`, `isLegalRelativeVersion` — computes exactly that from the text. -/
+theorem C17_parseArgs_reads (lead : Str) (layout : List (Str × Str)) (toks : List Tok) (name : Str) (fm : Form)
+    (hlead : ∀ c ∈ lead, Str.isSpace c = true) (htok : ∀ p ∈ layout, tokStr p.1 = true) (hgaps : gapsOK layout = true)
+    (hlay : layout.map (·.1) = toks.flatMap Tok.strs) (hok : ∀ t ∈ toks, t.ok = true)
+    (hwords : toks.filterMap Tok.wordText = fm.words name) (hn : plainWord name = true) (hf : fm.ok = true)
+    (heups : (toks.flatMap Tok.strs).head? ≠ some sEups) :
+    parseArgs (lead ++ renderGaps layout) = .ok (.parsed (fm.parsed name (toks.filterMap Tok.flagText))) :=
+  parseArgs_reads _ toks name fm (by rw [splitWs_render lead hlead layout htok hgaps, hlay]) hok hwords hn hf heups
+
+theorem truthy_none : truthy none = false := rfl
+
+theorem join_truthy {es : List Str} (hne : es ≠ []) (hp : ∀ e ∈ es, e ≠ []) : truthy (some (join [cSp] es)) = true := by
+  cases es with
+  | nil => exact absurd rfl hne
+  | cons e rest =>
+    have he := hp e (by simp)
+    cases e with
+    | nil => exact absurd rfl he
+    | cons c cs =>
+      cases rest with
+      | nil => rfl
+      | cons e2 r => rfl
+
+/-- **keeps the original constraints, for every documented form of a setup line** (`C17_parseArgs_reads` composed with
+`decideRewrite`): for a product that is set up at version `v` (not a `LOCAL:` version) and not pinned with `-p`, with the
+default options, `subSetup` rewrites the line to: the same command, product and flags, then
+`v [>= v]` for a bare line; the explicit version as it was for `name v0` (nothing added) and `name v0 [expr]` (expression
+kept verbatim); `v [expr]` for `name [expr]`; `v [>= 1 …]` for `name >= 1 …`. -/
+theorem C17_keeps_constraints_written (A : Answers) (o : Opts) (optional : Bool) (original : Str)
+    (lead : Str) (layout : List (Str × Str)) (toks : List Tok) (name : Str) (fm : Form)
+    (hlead : ∀ c ∈ lead, Str.isSpace c = true) (htok : ∀ p ∈ layout, tokStr p.1 = true) (hgaps : gapsOK layout = true)
+    (hlay : layout.map (·.1) = toks.flatMap Tok.strs) (hok : ∀ t ∈ toks, t.ok = true)
+    (hwords : toks.filterMap Tok.wordText = fm.words name) (hn : plainWord name = true) (hf : fm.ok = true)
+    (heups : (toks.flatMap Tok.strs).head? ≠ some sEups)
+    (hpin : A.pin name = none) (hexp : o.expandVersions = true)
+    (v : Str) (hspv : A.spv name = some v) (hv : v ≠ []) (hloc : startsWith v sLocal = false) :
+    subSetup A o optional (lead ++ renderGaps layout) original = .ok (renderRewrite (
+      let flags := toks.filterMap Tok.flagText
+      match fm with
+      | .bare => ⟨optional, name, flags, some v, some (sGe ++ v)⟩
+      | .ver v0 => ⟨optional, name, flags, some v0, none⟩
+      | .verExpr v0 es => ⟨optional, name, flags, some v0, some (join [cSp] es)⟩
+      | .expr es => ⟨optional, name, flags, some v, some (join [cSp] es)⟩
+      | .rel r ws => ⟨optional, name, flags, some v, some (join [cSp] (r :: ws))⟩)) := by
+  have hparse := C17_parseArgs_reads lead layout toks name fm hlead htok hgaps hlay hok hwords hn hf heups
+  have htv : truthy (some v) = true := by
+    cases v with
+    | nil => exact absurd rfl hv
+    | cons c cs => rfl
+  have hge : truthy (some (sGe ++ v)) = true := by
+    have : sGe = [62, 61, 32] := by decide
+    rw [this]; rfl
+  have plain_ne : ∀ {w : Str}, plainWord w = true → w ≠ [] := fun h => by
+    obtain ⟨c, tl, rfl, _, _⟩ := plainWord_facts h; simp
+  unfold subSetup
+  simp only [hparse, bind, Except.bind]
+  cases fm with
+  | bare =>
+    simp [Form.parsed, decideRewrite, hpin, hspv, htv, hexp, hloc, hge, truthy_none, pure, Except.pure]
+  | ver v0 =>
+    simp only [Form.ok, versionWord, Bool.and_eq_true] at hf
+    have hne := plain_ne hf.1.1
+    have ht0 : truthy (some v0) = true := by
+      cases v0 with
+      | nil => exact absurd rfl hne
+      | cons c cs => rfl
+    simp [Form.parsed, decideRewrite, hpin, ht0, hexp, truthy_none, pure, Except.pure]
+  | verExpr v0 es =>
+    simp only [Form.ok, versionWord, Bool.and_eq_true, Bool.not_eq_true', List.isEmpty_eq_false_iff, List.all_eq_true] at hf
+    have hne := plain_ne hf.1.1.1.1
+    have ht0 : truthy (some v0) = true := by
+      cases v0 with
+      | nil => exact absurd rfl hne
+      | cons c cs => rfl
+    have hj := join_truthy hf.1.2 (fun e he => plain_ne (hf.2 e he))
+    simp [Form.parsed, decideRewrite, hpin, ht0, hexp, hj, pure, Except.pure]
+  | expr es =>
+    simp only [Form.ok, Bool.and_eq_true, Bool.not_eq_true', List.isEmpty_eq_false_iff, List.all_eq_true] at hf
+    have hj := join_truthy hf.1 (fun e he => plain_ne (hf.2 e he))
+    simp [Form.parsed, decideRewrite, hpin, hspv, htv, hexp, hj, truthy_none, pure, Except.pure]
+  | rel r ws =>
+    simp only [Form.ok, Bool.and_eq_true, List.all_eq_true] at hf
+    have hj : truthy (some (join [cSp] (r :: ws))) = true :=
+      join_truthy (by simp) (fun e he => by
+        simp only [List.mem_cons] at he
+        rcases he with rfl | he
+        · exact plain_ne hf.1.1
+        · exact plain_ne (hf.2 e he))
+    simp [Form.parsed, decideRewrite, hpin, hspv, htv, hexp, hj, truthy_none, pure, Except.pure]
 
 /-- A setup command is either left exactly as it was (the `eups` pseudo-product, no product word, or nothing set up
 for it) or rewritten as described by `C17_keeps_constraints_line`. -/
@@ -350,6 +468,53 @@ theorem C17_exact_reproduces_partial {Db : Type} (declared : Db → Str → Str 
   exact H.pin_sets_exactly pl db'
 
 
+/-- **`Covered` cannot be weakened** (it is exactly what exact reproduction needs of the build environment).  If running the
+pins of the expanded table (`runPins`, from an environment without records) reproduces the build-time record of every product
+other than the top-level one, then every set-up product other than the top-level one is contributed to `desiredProducts` by
+a product of the table — `Covered`.  No hypothesis on the environment's answers.  (The class on which `Covered` fails on the
+real code is the open finding D72: `C17_d72_covered_fails_witness`.) -/
+theorem C17_covered_necessary {Db : Type} (declared : Db → Str → Str → Bool)
+    (A : Answers) (o : Opts) (lines : List Str) (items : List Item)
+    (h : expandItems A o lines = .ok items) (hn : noExactLine A o lines = true) (ha : o.addExactBlock = true)
+    (db' : Db) (recs : Recs) (hrun : runPins declared db' (items.filterMap pinKey) (fun _ => none) = some recs)
+    (hrep : ∀ n, o.toplevel ≠ some n → recs n = A.sv n) :
+    ∀ st, readAll A o lines = .ok st → Covered A o st := by
+  intro st hr n v hs hne
+  obtain ⟨st', c, hr', hc, hpk⟩ := expand_pins h hn ha
+  rw [hr] at hr'
+  cases hr'
+  rw [hpk] at hrun
+  by_cases hin : ∃ x ∈ c.pinKeys, x.2.1 = n
+  · obtain ⟨x, hx, hxn⟩ := hin
+    simp only [CState.pinKeys, List.mem_map] at hx
+    obtain ⟨⟨n', v'⟩, hq, rfl⟩ := hx
+    simp only at hxn
+    subst hxn
+    obtain ⟨p, hp, d, hd, hdq⟩ := collect_contrib hc (n', v') hq
+    exact ⟨p, hp, d, hd, by simpa using congrArg Prod.fst hdq⟩
+  · have := runPins_frame declared db' c.pinKeys (fun _ => none) recs hrun n hin
+    rw [hrep n hne, hs] at this
+    cases this
+
+/-- **Exact reproduction ⟺ `Covered`.**  For a successful expansion (no pre-existing exact block, `addExactBlock`) in an
+environment whose listings are sound (`DepsSound`), whose `-p` pins agree with the records, and a later database in which the
+recorded versions are still declared: running the pins of the expanded table reproduces the build-time record of every
+product other than the top-level one *if and only if* the build environment is `Covered`. -/
+theorem C17_exact_reproduces_iff_covered {Db : Type} (declared : Db → Str → Str → Bool)
+    (A : Answers) (o : Opts) (lines : List Str) (items : List Item)
+    (h : expandItems A o lines = .ok items) (hn : noExactLine A o lines = true) (ha : o.addExactBlock = true)
+    (hsound : DepsSound A) (hpins : ∀ n v, A.pin n = some v → A.sv n = some v)
+    (db' : Db) (hdecl : ∀ n v, A.sv n = some v → declared db' n v = true) :
+    (∃ recs, runPins declared db' (items.filterMap pinKey) (fun _ => none) = some recs ∧
+      ∀ n, o.toplevel ≠ some n → recs n = A.sv n)
+    ↔ (∀ st, readAll A o lines = .ok st → Covered A o st) := by
+  constructor
+  · rintro ⟨recs, hrun, hrep⟩
+    exact C17_covered_necessary declared A o lines items h hn ha db' recs hrun hrep
+  · intro hcov
+    exact C17_exact_reproduces_partial_inst declared (fun _ db => runPins declared db (items.filterMap pinKey) (fun _ => none))
+      A o lines items h hn ha hsound hpins hcov db' hdecl rfl rfl
+
 /-! ## exact reproduction over the model of `Eups.setup` (C01) -/
 
 /-- **The Setup half of `ExactSetupHyps.pin_sets_exactly`, discharged from `Model/Setup.lean`.**  The action loop of
@@ -426,6 +591,140 @@ theorem C17_exact_reproduces_over_Setup (cfg : Setup.Cfg) (hk : cfg.keep = false
       refine ⟨(c.optional.contains (d.name, d.version) || c.notFound.contains d.name, d.name, d.version), ?_, hdn⟩
       simp only [CState.pinKeys, List.mem_map]
       exact ⟨(d.name, d.version), hm', rfl⟩
+
+/-! ## the expanded table read by the table parser (C11 model) and set up by `Eups.setup` (C01 model)
+
+`ExpandTable.expandedText items nl` is the text of the expanded table (the lines `output` prints, joined by newlines, with
+or without the final newline).  `ExpandTable.itemOK pdir` is what is asked of an item of the expansion (decidable, evaluated
+by the driver on every real expansion): a pin names a product and a version that can be written as bare arguments (not empty;
+no white space, comma, quote, backslash, `#`, `$`; not starting with `-`); a line of the input, as written back, is one line
+that `Table._rewrite` drops or passes on unchanged and that `Table._read` takes for a command or skips (not a line of the
+block structure, not a legacy `Flavor=`/`Group:` line, not a command with a wrong number of arguments); a blank / comment line
+stands for nothing.  `ExpandTable.inertItem pdir` is `Inert` made concrete: a line passed through outside the setup blocks is
+not a setup / unsetup command for the parser. -/
+
+/-- **`C17_exact_actions_text`: the TableParse step, discharged from the C11 model.**  For every successful expansion (no
+pre-existing exact block, `addExactBlock`) whose items are `itemOK`: the real reader's model — `Table._rewrite`, the block
+state machine and command parser of `Table._read`, the condition evaluator, `Table.actions(flavor, types)` — applied to the
+*text* of the expanded table, with `exact` among the setup types, returns exactly: for every pin line its action
+`setupRequired(n -j v)` (optional as written), for every line passed through outside the setup blocks what the reader makes
+of that line, and nothing for the table's own setup lines (they are inside `} else {` / `if (type != exact) {`).  Every flavor
+(other than the evaluator's four special tokens), every list of setup types that holds `exact`, every product. -/
+theorem C17_exact_actions_text (pdir : Option Str) (env : Cond.Env) (hfl : C11Spec.flavorOK env.flavor = true)
+    (hex : env.types.contains ExpandTable.sExactW = true)
+    (A : Answers) (o : Opts) (lines : List Str) (items : List Item)
+    (h : expandItems A o lines = .ok items) (hn : noExactLine A o lines = true) (ha : o.addExactBlock = true)
+    (hok : ∀ it ∈ items, ExpandTable.itemOK pdir it = true) (nl : Bool) :
+    TableParse.tableActions TableParse.repaired pdir env (ExpandTable.expandedText items nl)
+      = .ok (items.flatMap (ExpandTable.exactActs pdir)) :=
+  ExpandTable.expand_exact_actions pdir env hfl hex h hn ha hok nl
+
+/-- **`C17_inexact_actions_text`: keeps the original constraints for inexact mode, through the table reader.**  For every
+successful expansion (`addExactBlock`; items `itemOK`; pre-existing exact blocks or not) and every list of setup types that
+does *not* hold `exact`, the reader's model applied to the text of the expanded table returns exactly what it makes of the
+lines of the input, in their order — the setup lines as `subSetup` rewrote them (`C17_keeps_constraints_written`), the lines
+passed through, the final block — and none of the pins: in inexact mode the expanded table is the original table with
+versions and constraints added. -/
+theorem C17_inexact_actions_text (pdir : Option Str) (env : Cond.Env) (hfl : C11Spec.flavorOK env.flavor = true)
+    (hne : env.types.contains ExpandTable.sExactW = false)
+    (A : Answers) (o : Opts) (lines : List Str) (items : List Item)
+    (h : expandItems A o lines = .ok items) (ha : o.addExactBlock = true)
+    (hok : ∀ it ∈ items, ExpandTable.itemOK pdir it = true) (nl : Bool) :
+    TableParse.tableActions TableParse.repaired pdir env (ExpandTable.expandedText items nl)
+      = .ok (items.flatMap (ExpandTable.inexactActs pdir)) :=
+  ExpandTable.expand_inexact_actions pdir env hfl hne h ha hok nl
+
+/-- **`applies_exact_branch` and the text half of `pin_sets_exactly`, discharged.**  Under `inertItem` (the lines passed
+through are not setup / unsetup commands for the parser) the actions of the expanded table in exact mode that set a product
+up or take one away are, in order and each once, the pin actions of the collected closure `desiredProducts` — nothing of the
+inexact branches, nothing else. -/
+theorem C17_exact_setup_actions (pdir : Option Str) (env : Cond.Env) (hfl : C11Spec.flavorOK env.flavor = true)
+    (hex : env.types.contains ExpandTable.sExactW = true)
+    (A : Answers) (o : Opts) (lines : List Str) (items : List Item)
+    (h : expandItems A o lines = .ok items) (hn : noExactLine A o lines = true) (ha : o.addExactBlock = true)
+    (hok : ∀ it ∈ items, ExpandTable.itemOK pdir it = true) (hinert : ∀ it ∈ items, ExpandTable.inertItem pdir it = true)
+    (nl : Bool) :
+    ∃ acts st c, TableParse.tableActions TableParse.repaired pdir env (ExpandTable.expandedText items nl) = .ok acts ∧
+      readAll A o lines = .ok st ∧ collect A o st = .ok c ∧
+      acts.filter ExpandTable.isSetupAct = c.pinKeys.map (fun p => ExpandTable.pinAction p.1 p.2.1 p.2.2) ∧
+      acts.filterMap ExpandTable.toPin = c.pinKeys := by
+  obtain ⟨st, c, hr, hc, hpk⟩ := expand_pins h hn ha
+  refine ⟨_, st, c, ExpandTable.expand_exact_actions pdir env hfl hex h hn ha hok nl, hr, hc, ?_, ?_⟩
+  · rw [ExpandTable.setupActs_flatMap items hinert, hpk]
+  · rw [ExpandTable.toPin_flatMap items hinert, hpk]
+
+/-- **`C17_exact_reproduces_text`: exact reproduction from the text of the expanded table**, through the C11 model of the
+table reader and the C01 model of `Eups.setup` — no abstract exact-mode setup function, no `ExactSetupHyps`.  For a successful
+expansion (no pre-existing exact block, `addExactBlock`; items `itemOK`, lines passed through `inertItem`) whose build
+environment is the closure of the table (`DepsSound`, `Covered`, `-p` pins agree with the records), any later Setup database
+in which the recorded versions are still declared, and any state in which nothing but the top-level product is set up:
+reading the expanded text in exact mode succeeds, and running `Eups.setup`'s action loop in exact mode on the setup commands
+it yields (`toPin` = `Action.processArgs` on `[n, -j, v]`) succeeds and leaves, for every product other than the top-level
+one, exactly its build-time record.  (Actions other than setup / unsetup commands do not touch the records: `apply_recs`.) -/
+theorem C17_exact_reproduces_text (cfg : Setup.Cfg) (hk : cfg.keep = false) (hm : cfg.maxDepth = none) (fuel : Nat)
+    (top : Setup.Decl) (s : Setup.St)
+    (pdir : Option Str) (env : Cond.Env) (hfl : C11Spec.flavorOK env.flavor = true)
+    (hex : env.types.contains ExpandTable.sExactW = true)
+    (A : Answers) (o : Opts) (lines : List Str) (items : List Item)
+    (h : expandItems A o lines = .ok items) (hn : noExactLine A o lines = true) (ha : o.addExactBlock = true)
+    (hok : ∀ it ∈ items, ExpandTable.itemOK pdir it = true) (hinert : ∀ it ∈ items, ExpandTable.inertItem pdir it = true)
+    (hsound : DepsSound A) (hpins : ∀ n v, A.pin n = some v → A.sv n = some v)
+    (hcov : ∀ st, readAll A o lines = .ok st → Covered A o st)
+    (hdecl : ∀ n v, A.sv n = some v → declaredS cfg n v = true)
+    (hclean : ∀ n, o.toplevel ≠ some n → Setup.aget s.already n = none ∧ s.env.rec? n = none)
+    (htop : ∀ v, ∀ n, o.toplevel = some n → (n, v) ∉ (items.filterMap pinKey).map (·.2)) (nl : Bool) :
+    ∃ acts s', TableParse.tableActions TableParse.repaired pdir env (ExpandTable.expandedText items nl) = .ok acts ∧
+      Setup.acts (Setup.setup cfg (fuel + 1)) cfg true 0 false exactVro top ((acts.filterMap ExpandTable.toPin).map pinAct) s = .ok s' ∧
+      ∀ n, o.toplevel ≠ some n → recNames s'.env n = A.sv n := by
+  obtain ⟨s', hs', hrec⟩ := C17_exact_reproduces_over_Setup cfg hk hm fuel top s A o lines items h hn ha hsound hpins hcov hdecl
+    hclean htop
+  refine ⟨_, s', ExpandTable.expand_exact_actions pdir env hfl hex h hn ha hok nl, ?_, hrec⟩
+  rw [ExpandTable.toPin_flatMap items hinert]
+  exact hs'
+
+/-- **`C17_exact_actions_blocks`: the TableParse step for tables whose non-setup lines have `if` blocks of their own**
+(flavor blocks and the like).  Scope condition `ExpandTable.expandOK2` (decidable, evaluated by the driver on every real
+expansion): the items of the setup blocks are `itemOK`, and the lines of every non-setup block and of the final block are
+grouped rightly by `ExpandTable.groupPlain` into single lines and `if (var op word) {` … `} else if` … `} else {` … `}` chains
+(the grouping is *checked* — its text is the text written and its items are well formed — not trusted).  Then the reader's
+model applied to the text of the expanded table returns exactly what the written table `tableOf` (those lines and chains, and
+for every setup block the chain `if (type == exact) {` pins `} else {` lines `}` / `if (type != exact) {` lines `}`) denotes —
+every flavor, every list of setup types, no hypothesis on a pre-existing exact block. -/
+theorem C17_exact_actions_blocks (pdir : Option Str) (env : Cond.Env) (hfl : C11Spec.flavorOK env.flavor = true)
+    (A : Answers) (o : Opts) (lines : List Str) (items : List Item)
+    (h : expandItems A o lines = .ok items) (ha : o.addExactBlock = true)
+    (hok : ExpandTable.expandOK2 pdir A o lines = true) (nl : Bool) :
+    ∃ p, ExpandTable.expandParts A o lines = .ok p ∧
+      TableParse.tableActions TableParse.repaired pdir env (ExpandTable.expandedText items nl)
+        = .ok (C11Spec.denoteTable env (C11Spec.tableAbs (ExpandTable.tableOf pdir p))) :=
+  ExpandTable.expand_exact_actions2 pdir env hfl h ha hok nl
+
+/-- **`C17_exact_reproduces_text_blocks`**: `C17_exact_reproduces_text` for tables with blocks of their own — scope
+`expandOK2`; `Inert` in the form `ExpandTable.expandInert2` (for this flavor, no non-setup block and no line of the final
+block denotes a setup / unsetup command). -/
+theorem C17_exact_reproduces_text_blocks (cfg : Setup.Cfg) (hk : cfg.keep = false) (hm : cfg.maxDepth = none) (fuel : Nat)
+    (top : Setup.Decl) (s : Setup.St)
+    (pdir : Option Str) (env : Cond.Env) (hfl : C11Spec.flavorOK env.flavor = true)
+    (hex : env.types.contains ExpandTable.sExactW = true)
+    (A : Answers) (o : Opts) (lines : List Str) (items : List Item)
+    (h : expandItems A o lines = .ok items) (hn : noExactLine A o lines = true) (ha : o.addExactBlock = true)
+    (hok : ExpandTable.expandOK2 pdir A o lines = true) (hinert : ExpandTable.expandInert2 pdir env A o lines = true)
+    (hsound : DepsSound A) (hpins : ∀ n v, A.pin n = some v → A.sv n = some v)
+    (hcov : ∀ st, readAll A o lines = .ok st → Covered A o st)
+    (hdecl : ∀ n v, A.sv n = some v → declaredS cfg n v = true)
+    (hclean : ∀ n, o.toplevel ≠ some n → Setup.aget s.already n = none ∧ s.env.rec? n = none)
+    (htop : ∀ v, ∀ n, o.toplevel = some n → (n, v) ∉ (items.filterMap pinKey).map (·.2)) (nl : Bool) :
+    ∃ acts s', TableParse.tableActions TableParse.repaired pdir env (ExpandTable.expandedText items nl) = .ok acts ∧
+      acts.filterMap ExpandTable.toPin = items.filterMap pinKey ∧
+      Setup.acts (Setup.setup cfg (fuel + 1)) cfg true 0 false exactVro top ((acts.filterMap ExpandTable.toPin).map pinAct) s = .ok s' ∧
+      ∀ n, o.toplevel ≠ some n → recNames s'.env n = A.sv n := by
+  obtain ⟨s', hs', hrec⟩ := C17_exact_reproduces_over_Setup cfg hk hm fuel top s A o lines items h hn ha hsound hpins hcov hdecl
+    hclean htop
+  obtain ⟨p, hp, hact⟩ := ExpandTable.expand_exact_actions2 pdir env hfl h ha hok nl
+  obtain ⟨p', hp', hpin⟩ := ExpandTable.expand_pins2 pdir env hex h ha hok hinert
+  rw [hp] at hp'
+  cases hp'
+  exact ⟨_, s', hact, hpin, by rw [hpin]; exact hs', hrec⟩
 
 /-! ## concrete instances: the hypotheses are satisfiable, the theorems are not vacuous; negation witnesses -/
 
@@ -595,6 +894,92 @@ example : ∃ s', Setup.acts (Setup.setup setupCfg1 2) setupCfg1 true 0 false ex
       rw [hp]
       simp)
 
+/-- `C17_exact_actions_text` / `C17_exact_reproduces_text` are not vacuous: the items of the example are `itemOK` and
+`inertItem`; in exact mode the expanded text of the example yields the `envPrepend` line's action and the three pin actions. -/
+def exactEnv1 : Cond.Env := ⟨str! "Linux", [str! "exact"]⟩
+def T1flat : List Str := T1.take 5
+def items1flat : List Item :=
+  [.orig 0 .blank (str! "# the table of product a\n"),
+   .gen 0 sIfNotExact, .orig 1 .setup (str! "setupRequired(b 1 [>= 1])"), .gen 0 sClose,
+   .orig 0 .other (str! "envPrepend(PATH, ${PRODUCT_DIR}/bin)\n"),
+   .gen 0 sIfExact, .pin 1 false (str! "b") (str! "1"), .pin 1 false (str! "c") (str! "2"), .pin 1 true (str! "d") (str! "1"),
+   .gen 0 sElse, .orig 1 .setup (str! "setupOptional(d -j 1 [>= 1])"), .orig 1 .setup (str! "setupOptional(x)"), .gen 0 sClose]
+theorem expand1flat : expandItems D1.toAnswers o1 T1flat = .ok items1flat := okItems_eq (by decide +kernel)
+example : items1flat.all (fun it => ExpandTable.itemOK none it && ExpandTable.inertItem none it) = true := by decide +kernel
+example : items1flat.flatMap (ExpandTable.exactActs none)
+    = [⟨str! "envPrepend", [str! "PATH", str! "${PRODUCT_DIR}/bin"], .append false⟩,
+       ExpandTable.pinAction false (str! "b") (str! "1"), ExpandTable.pinAction false (str! "c") (str! "2"),
+       ExpandTable.pinAction true (str! "d") (str! "1")] := by decide +kernel
+example : TableParse.tableActions TableParse.repaired none exactEnv1 (ExpandTable.expandedText items1flat true)
+    = .ok (items1flat.flatMap (ExpandTable.exactActs none)) :=
+  C17_exact_actions_text none exactEnv1 (by decide) (by decide) D1.toAnswers o1 T1flat items1flat expand1flat (by decide +kernel) rfl
+    (fun it hit => by
+      have : items1flat.all (fun it => ExpandTable.itemOK none it) = true := by decide +kernel
+      exact List.all_eq_true.mp this it hit) true
+
+/-- `C17_exact_actions_blocks` is not vacuous: the whole example table `T1` — with its `if (flavor == Linux) {` block — is in
+scope (`expandOK2`, `expandInert2`), and its expanded text yields, for flavor Linux in exact mode, the `envPrepend` action, the
+three pin actions and the `envSet` of the flavor block. -/
+example : ExpandTable.expandOK2 none D1.toAnswers o1 T1 = true ∧ ExpandTable.expandInert2 none exactEnv1 D1.toAnswers o1 T1 = true := by
+  decide +kernel
+example : (match ExpandTable.expandParts D1.toAnswers o1 T1 with
+    | .ok p => (C11Spec.denoteTable exactEnv1 (C11Spec.tableAbs (ExpandTable.tableOf none p))).map (·.cmd)
+        == [str! "envPrepend", str! "setupRequired", str! "setupRequired", str! "setupRequired", str! "envSet"]
+    | .error _ => false) = true := by decide +kernel
+
+/-- `C17_exact_reproduces_text_blocks` is not vacuous: every hypothesis holds of the example table `T1` (flavor block
+included), the later C01 database `setupCfg1` and the clean state `setupSt1`; so reading the expanded text in exact mode
+for flavor Linux and running the setup commands it yields leaves exactly the build-time records `b 1`, `c 2`, `d 1`. -/
+example : ∃ acts s', TableParse.tableActions TableParse.repaired none exactEnv1 (ExpandTable.expandedText items1 true) = .ok acts ∧
+    acts.filterMap ExpandTable.toPin = items1.filterMap pinKey ∧
+    Setup.acts (Setup.setup setupCfg1 2) setupCfg1 true 0 false exactVro topDecl1 ((acts.filterMap ExpandTable.toPin).map pinAct) setupSt1 = .ok s' ∧
+    ∀ n, o1.toplevel ≠ some n → recNames s'.env n = D1.toAnswers.sv n :=
+  C17_exact_reproduces_text_blocks setupCfg1 rfl rfl 1 topDecl1 setupSt1 none exactEnv1 (by decide) (by decide)
+    D1.toAnswers o1 T1 items1 expand1 (by decide +kernel) rfl (by decide +kernel) (by decide +kernel)
+    (depsSound_of_data (by decide +kernel)) (pinsAgree_of_data (by decide +kernel)) (covered_of_data (by decide +kernel))
+    (by
+      intro n v h
+      have hm := lookup_mem (l := D1.sv) h
+      have : ∀ e ∈ D1.sv, declaredS setupCfg1 e.1 e.2 = true := by decide +kernel
+      exact this (n, v) hm)
+    (by
+      intro n hne
+      have hna : (str! "a") ≠ n := fun e => hne (by rw [← e]; rfl)
+      simp [setupSt1, Setup.aget, Setup.Env.rec?, hna])
+    (by
+      intro v n htl
+      have : n = str! "a" := by
+        have : some (str! "a") = some n := htl
+        exact (Option.some.inj this).symm
+      subst this
+      have hp : (items1.filterMap pinKey).map (·.2) = [(str! "b", str! "1"), (str! "c", str! "2"), (str! "d", str! "1")] := by decide +kernel
+      rw [hp]
+      simp) true
+
+/-- `C17_inexact_actions_text` on the example: in build mode the expanded text yields the rewritten setup lines and the
+`envPrepend` line, no pin. -/
+example : (items1flat.flatMap (ExpandTable.inexactActs none)).map (fun a => (a.cmd, a.args))
+    = [(str! "setupRequired", [str! "b", str! "1", str! "[>=", str! "1]"]), (str! "envPrepend", [str! "PATH", str! "${PRODUCT_DIR}/bin"]),
+       (str! "setupRequired", [str! "d", str! "-j", str! "1", str! "[>=", str! "1]"]), (str! "setupRequired", [str! "x"])] := by
+  decide +kernel
+example : TableParse.tableActions TableParse.repaired none ⟨str! "Linux", [str! "build"]⟩ (ExpandTable.expandedText items1flat true)
+    = .ok (items1flat.flatMap (ExpandTable.inexactActs none)) :=
+  C17_inexact_actions_text none ⟨str! "Linux", [str! "build"]⟩ (by decide) (by decide) D1.toAnswers o1 T1flat items1flat expand1flat rfl
+    (fun it hit => by
+      have : items1flat.all (fun it => ExpandTable.itemOK none it) = true := by decide +kernel
+      exact List.all_eq_true.mp this it hit) true
+
+/-- **`inertItem` cannot be dropped (observation O2).**  The expander recognises `setupRequired(` spelled exactly so; the
+table parser allows blanks before the parenthesis.  `setupRequired (x)` is passed through outside every block, the item is
+`itemOK` but not `inertItem`, and in exact mode the expanded table sets `x` up unpinned — whatever version is current then. -/
+theorem C17_inert_needed_witness :
+    okItems (expandItems D1.toAnswers o1 [str! "setupRequired (x)\n"]) [.orig 0 .other (str! "setupRequired (x)\n")] = true ∧
+    ExpandTable.itemOK none (.orig 0 .other (str! "setupRequired (x)\n")) = true ∧
+    ExpandTable.inertItem none (.orig 0 .other (str! "setupRequired (x)\n")) = false ∧
+    TableParse.tableActions TableParse.repaired none exactEnv1 (ExpandTable.expandedText [.orig 0 .other (str! "setupRequired (x)\n")] true)
+      = .ok [⟨str! "setupRequired", [str! "x"], .optional false⟩] := by
+  decide +kernel
+
 /-! ### negation witnesses: the two ways `C17_exact_reproduces` failed on the pinned tree -/
 
 /-- **Empty exact block**: when nothing was set up for the table at build time (only optional dependencies, all
@@ -640,6 +1025,92 @@ theorem C17_d19_witness_pinned_required :
 the current tree keeps `b`: the closure is everything that is set up. -/
 theorem C17_d19_repaired :
     desiredIs ((readAll D2.toAnswers o1 T2).bind (collect D2.toAnswers o1)) [(str! "d", str! "1"), (str! "b", str! "1")] = true := by
+  decide +kernel
+
+/-- **An unsetup line names no product** (the repair of D73, for every line): when what the pattern finds first on a
+line — after the substitutions — is an unsetup command, the reader keeps the line in its setup block and registers neither
+a product to collect nor a line for the final block, whatever the environment answers. -/
+theorem C17_unsetup_names_no_product (A : Answers) (o : Opts) (raw t : Str) (m : RexMatch)
+    (hb : isBlankOrComment raw = false) (hs : subAll A o (stripComment raw) = .ok t)
+    (hm : searchRex t = some m) (hu : m.unsetup = true) :
+    classify A o raw = .ok (.setup t none) := by
+  unfold classify
+  simp [hb, hs, hm, hu, bind, Except.bind, pure, Except.pure]
+
+/-- …and the substitution leaves an unsetup command exactly as it was written (no version, no `>= version`). -/
+theorem C17_unsetup_command_verbatim (A : Answers) (o : Opts) (c : Nat) (cs : Str) (m : RexMatch)
+    (hm : matchRexAt (c :: cs) = some m) (hu : m.unsetup = true) :
+    subGo A o 0 (c :: cs) = (subGo A o (m.len - 1) cs).map (fun rest => (c :: cs).take m.len ++ rest) := by
+  simp only [subGo, hm, hu, if_true, bind, Except.bind, pure, Except.pure]
+  cases subGo A o (m.len - 1) cs <;> rfl
+
+/-- **`C17_unsetup_line_kept`: the repair of D73 at the level of the text.**  The line `unsetupRequired(args)` /
+`unsetupOptional(args)` (`unsetupLine opt args`, with its newline) — for every argument text without a double quote, `#` or
+newline: product names, flags, versions, parentheses, anything — is read as a line of a setup block that is kept exactly as
+written and names no product, whatever is set up and whatever the options. -/
+theorem C17_unsetup_line_kept (A : Answers) (o : Opts) (opt : Bool) (args : Str)
+    (hq : 34 ∉ args) (hh : 35 ∉ args) (hn : 10 ∉ args) :
+    classify A o (unsetupLine opt args) = .ok (.setup (unsetupLine opt args) none) :=
+  classify_unsetupLine A o opt hq hh hn
+
+example : unsetupLine false (str! "b -j") = str! "unsetupRequired(b -j)\n" := by decide
+
+/-- the search with the pattern of the pinned tree, `(setupRequired|setupOptional)\(…\)` without the optional `un` -/
+def searchRexPinned : Str → Option RexMatch
+  | [] => none
+  | c :: cs =>
+    match matchSetupAt (c :: cs) with
+    | some m => some m
+    | none => searchRexPinned cs
+
+/-- **D73** on the pinned pattern: the unanchored pattern finds the setup command `setupRequired(b)` *inside* the line
+`unsetupRequired(b)`, so `b` was registered as a product the table sets up (and demanded to be set up) … -/
+theorem C17_d73_witness_pinned :
+    searchRexPinned (str! "unsetupRequired(b)\n") = some ⟨false, str! "b", 16, false⟩ := by decide +kernel
+
+/-- … whereas the pattern of the repaired tree matches the line as an unsetup command, which the reader keeps in the setup
+block as it is, without a product. -/
+example : searchRex (str! "unsetupRequired(b)\n") = some ⟨false, str! "b", 18, true⟩ := by decide +kernel
+example : (match classify D1.toAnswers o1 (str! "unsetupRequired(b)\n") with
+    | .ok c => c == .setup (str! "unsetupRequired(b)\n") none
+    | .error _ => false) = true := by decide +kernel
+
+/-- **D74** (open finding): the expander ignores the block structure of the table it expands.  `setupRequired(b)` inside
+`if (flavor == Darwin) {` is not applied on Linux, so `b` is rightly not set up (`D4a`: only `a` and `c` are) — yet the
+expansion demands it and refuses the table. -/
+def D4a : AnswerData where
+  sv := [(str! "a", str! "1"), (str! "c", str! "1")]
+  spv := [(str! "a", str! "1"), (str! "c", str! "1")]
+  deps := [((str! "c", str! "1"), some [])]
+
+theorem C17_d74_witness :
+    (match expandItems D4a.toAnswers o1
+        [str! "setupRequired(c)\n", str! "if (flavor == Darwin) {\n", str! "setupRequired(b)\n", str! "}\n"] with
+      | .error .notSetup => true
+      | _ => false) = true := by
+  decide +kernel
+
+/-- **D74, second form**: `setupRequired(b)` inside `if (flavor == Linux) {` … `} else {` `envSet(A_FL, 2)` `}`.  The
+expander nests its `if (type == exact) {` block inside the table's block; the reader (no nested blocks) drops the outer
+condition and reads the else branch as unconditional: on Linux, in exact mode, the expanded text yields `envSet(A_FL, 2)`,
+the original text does not. -/
+def D4b : AnswerData where
+  sv := [(str! "a", str! "1"), (str! "b", str! "1"), (str! "c", str! "1")]
+  spv := [(str! "a", str! "1"), (str! "b", str! "1"), (str! "c", str! "1")]
+  deps := [((str! "c", str! "1"), some []), ((str! "b", str! "1"), some [])]
+def T4b : List Str :=
+  [str! "setupRequired(c)\n", str! "if (flavor == Linux) {\n", str! "setupRequired(b)\n", str! "} else {\n",
+   str! "envSet(A_FL, 2)\n", str! "}\n"]
+def hasEnvSet (r : Cond.Res (List TableParse.Action)) : Bool :=
+  match r with
+  | .ok acts => acts.any (fun a => a.cmd == str! "envSet")
+  | _ => false
+
+theorem C17_d74_nested_witness :
+    hasEnvSet (TableParse.tableActions TableParse.repaired none exactEnv1 T4b.flatten) = false ∧
+    (match expandItems D4b.toAnswers o1 T4b with
+      | .ok items => hasEnvSet (TableParse.tableActions TableParse.repaired none exactEnv1 (ExpandTable.expandedText items true))
+      | .error _ => false) = true := by
   decide +kernel
 
 /-- **D72** (open finding): the hypothesis `Covered` is not a formality.  Answers as the real code gives them for the table
